@@ -268,11 +268,12 @@ theorem withHandle_ok (h : H) (cmd : Int) (size : Nat) (data : Option Mem) : (wi
   case k10D1 => c17_auto
   case k1100 => c17_auto
   case k1101 =>
+    unfold chmapSet
     split_ifs <;> first
       | c17_leaf
       | (apply guardEq_ok; intro m hm hs'
          have hle := chanExamined_le m.byte h.channels 0
-         split_ifs <;> c17_leaf)
+         split_ifs <;> first | c17_leaf | (simp only []; split_ifs <;> c17_leaf))
   case k1300 =>
     apply guardEq_ok; intro m hm hs'
     unfold containerCommand
